@@ -32,12 +32,21 @@ SPEC = [
         "classes": ["RadiusMerge", "DiameterMerge", "ToleranceDiameterMerge", "ToleranceRadiusMerge",
                     "NeverMerge", "ToleranceMerge"],
         "methods": ["__init__", "__call__"],
+        "dispatch": True,
         "functions": ["get_merge_accept_fn"]}),
     ("bblean/_memory.py", {
         "classes": ["_ArrayMemPagesManager"],
         "methods": ["from_bb_input", "should_release_curr_page", "release_curr_page_and_update_addr"],
         "dataclass": True}),
+    ("bblean/bitbirch.py", {
+        "classes": ["_BFSubcluster"],
+        "methods": ["n_samples", "linear_sum", "replace_n_samples_and_linear_sum", "add_to_n_samples_and_linear_sum",
+                    "update", "merge_subcluster"],
+        "slots": True}),
 ]
+# a parameter annotated with this class is a merge-function object (class name :: attributes); calling it dispatches on the
+# class name to the translated `__call__` of that class (generated function `<base>_call`)
+DISPATCH_BASE = "MergeAcceptFunction"
 
 # calls that are effects of a procedure: recorded, in order, in the returned list
 EFFECTS = {"_madvise_dontneed"}
@@ -93,6 +102,7 @@ class FnInfo:
         self.defaults = defaults        # name -> ast node of the default
         self.kind = kind                # "V" value, "L" list
         self.extra = extra              # extra (symbol) parameters: calling it from generated code is refused
+        self.n_ret = 0                  # state-changing methods: number of returned values before the fields
 
 
 class Translator:
@@ -178,7 +188,19 @@ class Translator:
             if t and t.startswith("self.") and t.count(".") == 1:
                 if e.attr in cx["selfattrs"]:
                     return cx["selfattrs"][e.attr]
+                cls = cx.get("cls")
+                if cls and e.attr in self.classes[cls].get("props", {}):
+                    flds = self.classes[cls]["fields"]
+                    return "(" + " ".join([self.classes[cls]["props"][e.attr], "expf"] + [cx["selfattrs"][f] for f in flds]) + ")"
                 raise Unsupported(f"unknown attribute {t} (line {e.lineno})")
+            if isinstance(e.value, ast.Name) and e.value.id in cx.get("objparams", {}):
+                ocls = cx["objparams"][e.value.id]
+                flds = self.classes[ocls]["fields"]
+                if e.attr in flds:
+                    return ident(f"{e.value.id}_{e.attr}")
+                if e.attr in self.classes[ocls].get("props", {}):
+                    return "(" + " ".join([self.classes[ocls]["props"][e.attr], "expf"] + [ident(f"{e.value.id}_{f}") for f in flds]) + ")"
+                raise Unsupported(f"attribute {src_of(e)} of an object parameter (line {e.lineno})")
             if e.attr == "hasobject":
                 return f"(PV.hasobject {self.expr(e.value, cx)})"
             r = root_name(e)
@@ -187,6 +209,9 @@ class Translator:
                 cx["symbols"].add(s)
                 return s
             raise Unsupported(f"attribute {src_of(e)} (line {e.lineno})")
+        if isinstance(e, ast.Subscript) and isinstance(e.slice, ast.Slice) and e.slice.lower is None and e.slice.step is None \
+                and e.slice.upper is not None and src_of(e.slice.upper) == "-1":
+            return f"(PV.sliceInit {self.expr(e.value, cx)})"
         if isinstance(e, ast.Subscript):
             t = flat(e)
             r = root_name(e)
@@ -242,6 +267,12 @@ class Translator:
             if info.kind != "V":
                 raise Unsupported(f"call of list-valued {f.id} inside an expression (line {e.lineno})")
             return "(" + " ".join([info.lean_name, "expf"] + self.bind_args(info, e, cx)) + ")"
+        if isinstance(f, ast.Name) and f.id in cx.get("listparams", set()):
+            if e.keywords:
+                raise Unsupported(f"keywords in object call {src_of(e)} (line {e.lineno})")
+            return "(" + " ".join([f"{DISPATCH_BASE}_call", "expf", ident(f.id)] + [self.expr(a, cx) for a in e.args]) + ")"
+        if isinstance(f, ast.Attribute) and f.attr == "item" and len(e.args) == 1 and not e.keywords and src_of(e.args[0]) == "-1":
+            return f"(PV.itemLast {self.expr(f.value, cx)})"
         if isinstance(f, ast.Name) and f.id == "max" and len(e.args) == 2 and not e.keywords:
             return f"(PV.max2 {self.expr(e.args[0], cx)} {self.expr(e.args[1], cx)})"
         if isinstance(f, ast.Name) and f.id == "int" and len(e.args) == 1 and not e.keywords:
@@ -260,8 +291,10 @@ class Translator:
         if t == "np.dot" and len(e.args) == 2 and not e.keywords:
             return f"(PV.npDot {self.expr(e.args[0], cx)} {self.expr(e.args[1], cx)})"
         if t == "np.add" and len(e.args) == 2 and [k.arg for k in e.keywords] == ["dtype"]:
-            return (f"(PV.npAdd {self.expr(e.args[0], cx)} {self.expr(e.args[1], cx)} "
-                    f"{self.width(e.keywords[0].value)})")
+            dv = e.keywords[0].value
+            if flat(dv) and flat(dv).startswith("np."):
+                return (f"(PV.npAdd {self.expr(e.args[0], cx)} {self.expr(e.args[1], cx)} {self.width(dv)})")
+            return (f"(PV.npAddD {self.expr(e.args[0], cx)} {self.expr(e.args[1], cx)} {self.expr(dv, cx)})")
         if t == "np.packbits" and len(e.args) == 1 and [k.arg for k in e.keywords] == ["axis"] \
                 and src_of(e.keywords[0].value) == "-1":
             return f"(PV.packbits {self.expr(e.args[0], cx)})"
@@ -269,7 +302,9 @@ class Translator:
             return f"(PV.minScalarType {self.expr(e.args[0], cx)})"
         if isinstance(f, ast.Attribute) and f.attr == "astype" and len(e.args) == 1 \
                 and all(k.arg == "copy" for k in e.keywords):
-            return f"(PV.astype {self.expr(f.value, cx)} {self.width(e.args[0])})"
+            if flat(e.args[0]) and flat(e.args[0]).startswith("np."):
+                return f"(PV.astype {self.expr(f.value, cx)} {self.width(e.args[0])})"
+            return f"(PV.astypeD {self.expr(f.value, cx)} {self.expr(e.args[0], cx)})"
         if isinstance(f, ast.Attribute) and f.attr == "view" and len(e.args) == 1 and not e.keywords \
                 and self.width(e.args[0]) == ".u8":
             return f"(PV.viewU8 {self.expr(f.value, cx)})"
@@ -309,6 +344,30 @@ class Translator:
         s, rest = body[0], body[1:]
         if isinstance(s, ast.Expr) and isinstance(s.value, ast.Constant) and isinstance(s.value.value, str):
             return self.stmts(rest, cx, kind, end, ind)          # docstring
+        if isinstance(s, ast.Expr) and isinstance(s.value, ast.Call) and isinstance(s.value.func, ast.Attribute):
+            f = s.value.func
+            # self.<field>.extend(x)
+            if f.attr == "extend" and flat(f.value) and flat(f.value).startswith("self.") and f.value.attr in cx["selfattrs"] \
+                    and len(s.value.args) == 1 and not s.value.keywords:
+                attr = f.value.attr
+                lean = "self_" + attr
+                val = f"(PV.listExtend {cx['selfattrs'][attr]} {self.expr(s.value.args[0], cx)})"
+                cx2 = dict(cx, selfattrs=dict(cx["selfattrs"], **{attr: lean}))
+                return pad + f"let {lean} := {val}\n" + self.stmts(rest, cx2, kind, end, ind)
+            # self.<method>(...) of a translated state-changing method: the fields are rebound from its result
+            cls = cx.get("cls")
+            if cls and isinstance(f.value, ast.Name) and f.value.id == "self" and f.attr in self.classes[cls].get("mutators", {}):
+                info = self.classes[cls]["mutators"][f.attr]
+                flds = self.classes[cls]["fields"]
+                args = self.bind_args(info, s.value, cx)
+                call = " ".join([info.lean_name, "expf"] + [cx["selfattrs"][x] for x in flds] + args)
+                out = pad + f"let st_ := {call}\n"
+                new_attrs = dict(cx["selfattrs"])
+                for i, x in enumerate(flds):
+                    out += pad + f"let self_{x} := st_.getD {i + info.n_ret} PV.pynone\n"
+                    new_attrs[x] = "self_" + x
+                cx2 = dict(cx, selfattrs=new_attrs)
+                return out + self.stmts(rest, cx2, kind, end, ind)
         if isinstance(s, ast.Expr) and isinstance(s.value, ast.Call):
             t = flat(s.value.func)
             if t in DROPPED_CALLS:
@@ -335,7 +394,34 @@ class Translator:
                 if not o:
                     raise Unsupported(f"augmented assignment (line {s.lineno})")
                 tgt = s.target
-                val = f"(PV.{o[0]} {self.expr(s.target, cx)} {self.expr(s.value, cx)})"
+                val = None if isinstance(tgt, ast.Subscript) else \
+                    f"(PV.{o[0]} {self.expr(s.target, cx)} {self.expr(s.value, cx)})"
+            # x.flags.writeable = False on a local view: no effect on values
+            if isinstance(tgt, ast.Attribute) and flat(tgt) and flat(tgt).endswith(".flags.writeable") \
+                    and root_name(tgt) in cx["locals"]:
+                return self.stmts(rest, cx, kind, end, ind)
+            # self.<field>[:-1] = e   /   self.<field>[-1] = e   /   self.<field>[:-1] += e
+            if isinstance(tgt, ast.Subscript) and flat(tgt.value) and flat(tgt.value).startswith("self.") \
+                    and tgt.value.attr in cx["selfattrs"]:
+                attr = tgt.value.attr
+                cur = cx["selfattrs"][attr]
+                is_init = isinstance(tgt.slice, ast.Slice) and tgt.slice.lower is None and tgt.slice.step is None \
+                    and tgt.slice.upper is not None and src_of(tgt.slice.upper) == "-1"
+                is_last = not isinstance(tgt.slice, ast.Slice) and src_of(tgt.slice) == "-1"
+                rhs = self.expr(s.value, cx)
+                if isinstance(s, ast.AugAssign):
+                    if not (is_init and isinstance(s.op, ast.Add)):
+                        raise Unsupported(f"augmented subscript assignment {src_of(s)} (line {s.lineno})")
+                    newv = f"(PV.iaddInit {cur} {rhs})"
+                elif is_init:
+                    newv = f"(PV.setInit {cur} {rhs})"
+                elif is_last:
+                    newv = f"(PV.setLast {cur} {rhs})"
+                else:
+                    raise Unsupported(f"subscript assignment {src_of(s)} (line {s.lineno})")
+                lean = "self_" + attr
+                cx2 = dict(cx, selfattrs=dict(cx["selfattrs"], **{attr: lean}))
+                return pad + f"let {lean} := {newv}\n" + self.stmts(rest, cx2, kind, end, ind)
             if isinstance(tgt, ast.Name):
                 name = ident(tgt.id)
                 cx2 = dict(cx, locals=cx["locals"] | {tgt.id})
@@ -353,6 +439,9 @@ class Translator:
                 if end is None:
                     raise Unsupported(f"bare return (line {s.lineno})")
                 return pad + end(cx)
+            if cx.get("mutating"):
+                flds = self.classes[cx["cls"]]["fields"]
+                return pad + "[" + ", ".join([self.expr(s.value, cx)] + [cx["selfattrs"][x] for x in flds]) + "]"
             return pad + (self.expr(s.value, cx) if kind == "V" else self.lexpr(s.value, cx))
         if isinstance(s, ast.Raise):
             exc = s.exc
@@ -416,8 +505,36 @@ class Translator:
                 selfattrs = {x: "self_" + x for x in attrs}
                 selfparams = ["self_" + x for x in attrs]
         has_return_value = any(isinstance(n, ast.Return) and n.value is not None for n in ast.walk(fn))
-        is_proc = is_method and not is_init and not has_return_value
-        kind = self.fn_kind(fn, is_init, is_proc)
+        is_property = any(flat(d) == "property" for d in fn.decorator_list)
+        # object-valued parameters: annotated with a translated class (expanded into its fields) or with the
+        # merge-function base class (a `List PV`: class name :: attributes)
+        objparams, listparams = {}, set()
+        for x in list(a.args) + list(a.kwonlyargs):
+            ann = x.annotation
+            nm = ann.value if isinstance(ann, ast.Constant) and isinstance(ann.value, str) else (ann.id if isinstance(ann, ast.Name) else None)
+            if nm in self.classes and self.classes[nm].get("fields") is not None and x.arg not in ("self", "cls"):
+                objparams[x.arg] = nm
+            elif nm == DISPATCH_BASE:
+                listparams.add(x.arg)
+        # a method that assigns to a field of self, or calls one that does, changes the state: it returns the fields
+        mutating = False
+        if is_method and not is_init and not is_classmethod and fields is not None and not is_property:
+            for n in ast.walk(fn):
+                if isinstance(n, (ast.Assign, ast.AugAssign)):
+                    for tg in (n.targets if isinstance(n, ast.Assign) else [n.target]):
+                        if root_name(tg) == "self":
+                            mutating = True
+                if isinstance(n, ast.Call) and isinstance(n.func, ast.Attribute):
+                    if isinstance(n.func.value, ast.Name) and n.func.value.id == "self" \
+                            and n.func.attr in self.classes[cls].get("mutators", {}):
+                        mutating = True
+                    if n.func.attr == "extend" and root_name(n.func.value) == "self":
+                        mutating = True
+        uses_effects = any(isinstance(n, ast.Call) and flat(n.func) in EFFECTS for n in ast.walk(fn))
+        if uses_effects:
+            mutating = False        # a procedure with recorded effects: effect list ++ fields (as before)
+        is_proc = is_method and not is_init and not has_return_value and not mutating
+        kind = "L" if mutating else self.fn_kind(fn, is_init, is_proc)
         # opaque parameters: those whose attributes are read (other than by vocabulary methods)
         opaque = set()
         for n in ast.walk(fn):
@@ -427,9 +544,10 @@ class Translator:
             if isinstance(n, ast.Call) and isinstance(n.func, ast.Name) and n.func.id == "isinstance" \
                     and isinstance(n.args[0], ast.Name) and n.args[0].id in params:
                 opaque.add(n.args[0].id)
-        cx = {"params": set(params) - opaque, "selfattrs": selfattrs, "symbols": set(),
+        opaque -= set(objparams) | listparams
+        cx = {"params": set(params) - opaque - set(objparams), "selfattrs": selfattrs, "symbols": set(),
               "locals": set(), "opaque": opaque, "dataclass_fields": fields if is_classmethod else None,
-              "written": []}
+              "written": [], "cls": cls, "objparams": objparams, "listparams": listparams, "mutating": mutating}
         if is_init:
             def end(c):
                 return "[" + ", ".join(c["selfattrs"][x] for x in sorted(c["selfattrs"])) + "]"
@@ -439,6 +557,9 @@ class Translator:
 
             def end(c):
                 return "eff_ ++ [" + ", ".join(c["selfattrs"][x] for x in attrs) + "]"
+        elif mutating:
+            def end(c):
+                return "[" + ", ".join(c["selfattrs"][x] for x in fields) + "]"
         else:
             end = None
         body = self.stmts(fn.body, cx, kind, end, 1 + (1 if is_proc else 0))
@@ -447,16 +568,59 @@ class Translator:
                 "  let eff_ : List PV := []\n" + "\n".join(l[2:] if l.startswith("    ") else l for l in body.split("\n"))
         symbols = sorted(cx["symbols"])
         kept = [p for p in params if p not in opaque]
-        allp = selfparams + [ident(p) for p in kept] + symbols
-        sig = " ".join(["(expf : Rat → Rat)"] + ([f"({' '.join(allp)} : PV)"] if allp else []))
+        binders = [(x, "PV") for x in selfparams]
+        for p in kept:
+            if p in objparams:
+                binders += [(ident(f"{p}_{f}"), "PV") for f in self.classes[objparams[p]]["fields"]]
+            elif p in listparams:
+                binders.append((ident(p), "List PV"))
+            else:
+                binders.append((ident(p), "PV"))
+        binders += [(x, "PV") for x in symbols]
+        # group consecutive binders of one type
+        groups = []
+        for name, ty in binders:
+            if groups and groups[-1][1] == ty:
+                groups[-1][0].append(name)
+            else:
+                groups.append(([name], ty))
+        sig = " ".join(["(expf : Rat → Rat)"] + [f"({' '.join(ns)} : {ty})" for ns, ty in groups])
         rty = "PV" if kind == "V" else "List PV"
         self.out.append(f"/-- `{path}` : `{qual}` -/")
         self.out.append(f"def {lean_name} {sig} : {rty} :=\n{body}\n")
-        self.table.append((lean_name, len(allp), kind))
+        if all(ty == "PV" for _, ty in binders):
+            self.table.append((lean_name, len(binders), kind))
+        elif [ty for _, ty in binders].count("List PV") == 1 and binders[-1][1] == "List PV":
+            self.table.append((lean_name, -(len(binders) - 1), kind))     # the trailing arguments form the object
         info = FnInfo(lean_name, kept, defaults, kind, bool(symbols) or bool(opaque) or bool(selfparams))
         if is_init:
             info.extra = False
+        if mutating:
+            info.n_ret = 1 if has_return_value else 0
+            if has_return_value and any(isinstance(n, ast.Return) and n.value is None for n in ast.walk(fn)):
+                raise Unsupported(f"{qual}: bare return in a state-changing method that also returns values")
+        info.objparams, info.listparams = objparams, listparams
         return info, cx
+
+    def emit_dispatch(self, classes, path):
+        """`obj(*args)` for a merge-function object `obj = [class name, attributes...]`"""
+        n_args = None
+        rows = []
+        for k in classes:
+            fn = self.classes[k]["methods"]["__call__"]
+            n = len(fn.args.args) - 1
+            if n_args is None:
+                n_args = n
+            elif n != n_args:
+                raise Unsupported(f"__call__ of {k} takes {n} arguments, others {n_args}")
+            attrs = self.classes[k]["attrs"] if self.classes[k]["init_owner"] else []
+            pat = ", ".join([f'PV.str "{k}"'] + [f"s{i}" for i in range(len(attrs))])
+            call = " ".join([f"{k}_call", "expf"] + [f"s{i}" for i in range(len(attrs))] + [f"a{i}" for i in range(n_args)])
+            rows.append(f"  | [{pat}] => {call}")
+        args = " ".join(f"a{i}" for i in range(n_args))
+        self.out.append(f"/-- `{path}` : calling a `{DISPATCH_BASE}` object (class name :: attributes stored by `__init__`) -/")
+        self.out.append(f"def {DISPATCH_BASE}_call (expf : Rat → Rat) (obj : List PV) ({args} : PV) : PV :=\n  match obj with\n"
+                        + "\n".join(rows) + '\n  | _ => PV.err "TypeError"\n')
 
     def init_attrs(self, fn):
         attrs = []
@@ -485,6 +649,13 @@ class Translator:
             if spec.get("dataclass"):
                 c["fields"] = [n.target.id for n in cdef.body
                                if isinstance(n, ast.AnnAssign) and isinstance(n.target, ast.Name)]
+            if spec.get("slots"):
+                for n in cdef.body:
+                    if isinstance(n, ast.Assign) and flat(n.targets[0]) == "__slots__" and isinstance(n.value, ast.Tuple):
+                        c["fields"] = [e.value for e in n.value.elts]
+                if c["fields"] is None:
+                    raise Unsupported(f"class {cname} has no __slots__ tuple")
+            c["props"], c["mutators"] = {}, {}
             # resolve __init__ through the (single-inheritance) chain of translated classes
             k, owner = cname, None
             chain = {cname: c}
@@ -507,9 +678,18 @@ class Translator:
             for m in spec.get("methods", []):
                 if m in meths:
                     nm = m.strip("_")
-                    info, _ = self.emit_fn(meths[m], f"{cname}_{nm}", path, f"{cname}.{m}", cls=cname)
+                    info, cxm = self.emit_fn(meths[m], f"{cname}_{nm}", path, f"{cname}.{m}", cls=cname)
                     if m == "__init__":
                         c["init_info"] = info
+                    if any(flat(d) == "property" for d in meths[m].decorator_list):
+                        c["props"][m] = info.lean_name
+                    elif cxm.get("mutating"):
+                        c["mutators"][m] = info
+                elif not (m == "__init__" or m == "__call__"):
+                    raise Unsupported(f"method {cname}.{m} not found in {path}")
+
+        if spec.get("dispatch"):
+            self.emit_dispatch([k for k in spec["classes"] if "__call__" in self.classes[k]["methods"]], path)
         for fname in spec.get("functions", []):
             if fname not in top or not isinstance(top[fname], ast.FunctionDef):
                 raise Unsupported(f"function {fname} not found in {path}")
@@ -541,10 +721,11 @@ class Translator:
         self.out.append("def dispatch (expf : Rat → Rat) (fn : String) (args : List PV) : Option (List PV) :=")
         self.out.append("  match fn, args with")
         for name, ar, kind in self.table:
-            vs = [f"a{i}" for i in range(ar)]
-            call = " ".join([name, "expf"] + vs)
+            vs = [f"a{i}" for i in range(abs(ar))]
+            call = " ".join([name, "expf"] + vs + (["obj"] if ar < 0 else []))
             rhs = f"[{call}]" if kind == "V" else f"({call})"
-            self.out.append(f'  | "{name}", [{", ".join(vs)}] => some {rhs}')
+            pat = f'[{", ".join(vs)}]' if ar >= 0 else " :: ".join(vs + ["obj"])
+            self.out.append(f'  | "{name}", {pat} => some {rhs}')
         self.out.append("  | _, _ => none")
         self.out.append("")
         self.out.append("end BBGen")
